@@ -112,6 +112,13 @@ func init() {
 					opts.StdioEndCode = atoi(strings.TrimPrefix(p["mode"], "stdio-status-"))
 					opts.OnStop = att.exit // the process exits when it has been asked to shut down
 				}
+				if p["mode"] == "slow-ack" {
+					// (C04) the Shutdown handler needs 1.5 s to acknowledge, the process then finishes its clean-up and exits by
+					// itself 1 s later: inside the grace period that begins with the acknowledged request
+					opts.ShutdownAck = func() { x.Pause(1500 * time.Millisecond) }
+					opts.StopAfterAck = func(stop func()) { x.Pause(time.Second); x.Put("cleanup-done", true); stop() }
+					opts.OnStop = att.exit
+				}
 				if p["mode"] == "broker-late-eos" {
 					// the plugin waits for the host's announcement of id 9, ends the broker stream (it has what it needs) and dials
 					opts.EndAfterHostInfo = true
@@ -137,6 +144,7 @@ func init() {
 			}
 			stop := <-stopCh
 			x.OnCleanup(func() { stop(); att.exit() })
+			x.Put("att", att)
 			so, se := &lockedBuf{}, &lockedBuf{}
 			gp := &fullGRPCPlugin{}
 			ua, _ := vnet.ResolveUnixAddr("unix", addr)
@@ -147,7 +155,7 @@ func init() {
 				Logger:           nullLogger(),
 				SyncStdout:       so,
 				SyncStderr:       se,
-				Reattach: &plugin.ReattachConfig{Protocol: plugin.ProtocolGRPC, ProtocolVersion: 1, Addr: ua, Pid: 1 << 22, Test: !strings.HasPrefix(p["mode"], "stdio-status-"),
+				Reattach: &plugin.ReattachConfig{Protocol: plugin.ProtocolGRPC, ProtocolVersion: 1, Addr: ua, Pid: 1 << 22, Test: !strings.HasPrefix(p["mode"], "stdio-status-") && p["mode"] != "slow-ack",
 					ReattachFunc: func() (runner.AttachedRunner, error) { return att, nil }},
 			})
 			x.OnCleanup(cl.Kill)
@@ -233,6 +241,11 @@ func init() {
 				}
 				cl.Kill()
 				x.Put("killed", !att.forced.Load()) // (the leak verdict is about graceful exits)
+			case "slow-ack":
+				t0 := x.Now()
+				cl.Kill()
+				x.Put("killdt", x.Now()-t0)
+				x.Put("slowack-killed", true)
 			case "stdio-big":
 				for i := 0; i < 200 && (so.Len() < len(wantOut) || se.Len() < len(wantErr)); i++ {
 					x.Pause(100 * time.Millisecond)
@@ -272,6 +285,15 @@ func init() {
 			}
 			for _, e := range x.EndBlocked {
 				x.Fail("L", "blocked forever: %s", e)
+			}
+			if x.Data["slowack-killed"] == true && x.TimeDevs == 0 {
+				att, _ := x.Data["att"].(*rawAttached)
+				if att != nil && att.forced.Load() {
+					x.Fail("S", "a plugin that acknowledges the shutdown request after 1.5 s and exits by itself 1 s later was force-killed while still running (Kill took %v)", x.Data["killdt"])
+				}
+				if x.Data["cleanup-done"] != true {
+					x.Fail("S", "the plugin was not allowed to finish its clean-up")
+				}
 			}
 			if x.Data["killed"] == true && len(x.Violations()) == 0 && x.Data["session-disturbed"] != true {
 				// C18: after Kill nothing that go-plugin started for the client is left in the host
